@@ -628,6 +628,18 @@ func writeTypeConversion(w *formatting.IndentedWriter, typeChange dsl.TypeChange
 				rhs = sourceName
 			}
 
+			// std::stoi / std::stoul return a wider type than most targets and std::stoul accepts a minus sign: parse into the
+			// widest type and refuse what the target cannot hold instead of truncating or wrapping silently
+			numberType := common.TypeSyntax(tc.OldType())
+			switch def.(dsl.PrimitiveDefinition) {
+			case dsl.PrimitiveInt8, dsl.PrimitiveInt16, dsl.PrimitiveInt32, dsl.PrimitiveInt64:
+				rhs = fmt.Sprintf("[&]() { long long v_ = std::stoll(%s); if (v_ < std::numeric_limits<%s>::min() || v_ > std::numeric_limits<%s>::max()) { throw std::out_of_range(\"overflow\"); } return static_cast<%s>(v_); }()",
+					sourceName, numberType, numberType, numberType)
+			case dsl.PrimitiveUint8, dsl.PrimitiveUint16, dsl.PrimitiveUint32, dsl.PrimitiveUint64:
+				rhs = fmt.Sprintf("[&]() { auto p_ = %s.find_first_not_of(\" \\t\\n\\v\\f\\r\"); if (p_ != std::string::npos && %s[p_] == '-') { throw std::out_of_range(\"negative\"); } unsigned long long v_ = std::stoull(%s); if (v_ > std::numeric_limits<%s>::max()) { throw std::out_of_range(\"overflow\"); } return static_cast<%s>(v_); }()",
+					sourceName, sourceName, sourceName, numberType, numberType)
+			}
+
 			fmt.Fprintf(w, "try {\n")
 			w.Indented(func() {
 				fmt.Fprintf(w, "%s = %s;\n", targetName, rhs)
